@@ -32,5 +32,21 @@ PROPS["C14"] = {
     "assumptions": ["lines given to inject_tags do not end in a newline (asserted by the code; established by BufRead::lines)"],
 }
 
+WHOLE_FILE_MODELLED = [STD_TEXT, "BufRead::lines / str::lines / UTF-8 decoding", "std::fs and the OS file system (model FS: finite tree of regular files and directories, OS-style path walk)",
+                       "`sh` (commands come from a fixed vocabulary whose stdout the harness knows: printf literal, cat, echo marker >> $VERIF_LOG, printf %s $TXTPP_FILE, true, exit n)",
+                       "threadpool/mpsc scheduling (the whole-run model is sequential; C02 proves schedule independence over the coordinator model)"]
+
+PROPS["C01"] = {
+    "jobs": [{"cmd": "c01", "shards": 32, "shards_thorough": 48}],
+    "cli": False,
+    "trusted_base": ["M5 correspondence: Txtpp::run (library, in process, real sh) vs Lean runProject on generated projects; verdict + every byte of the tree on success"],
+    "modelled": WHOLE_FILE_MODELLED,
+    "level_text": "Lean theorem machine_eq_spec / pp_refines_spec: for every directive semantics, every source and every trailing option the streaming machine of Pp::run_internal (current directive, tail line, pending-newline flag) equals the README-shaped specification parse -> eval -> render, including when it fails. The concrete machine (all seven directives, tags, temp files, first/second pass, four modes) is compared with the real library on generated multi-file projects on every run; inside the documented domain a difference is an output that is not what the semantics prescribe.",
+    "design_ref": "5 C01, 4.2, 4.3",
+    "level_note": "Trusted: Lean kernel + {propext, Quot.sound}; the correspondence samples the domain of DESIGN 4.3; sh, the OS and Rust std are modelled, not verified.",
+    "technique": "Lean 4 proof (refinement: streaming machine = parse/eval/render spec) + generated differential correspondence",
+    "assumptions": ["inputs inside the documented domain of DESIGN.md 4.3 (UTF-8, CR only before LF, commands from the vocabulary, generated paths distinct from sources)"],
+}
+
 # properties not (yet) claimed, with the reason shown in MANIFEST.not_applicable
 PENDING = {}
